@@ -982,6 +982,15 @@ def random_case(ctx, ES, k):
     M = M.astype({"int": int, "float": float, "int8": np.int8,
                   "bool": bool}[dt])
     as_int = r.random() < 0.3       # integer-valued parameters as ints
+    if ts is not None and r.random() < 0.4:
+        # other time units (monthly records stamped in days or hours): every
+        # time, the lag and a finite window scale together
+        cu = float(r.choice([30.0, 720.0]))
+        ts = [float(v) * cu for v in ts]
+        lag = lag * cu
+        if taumax != INF:
+            taumax = taumax * cu
+        ctx.count("time_unit_scaled_cases")
     with ctx.guard(60):
         tsa = None if ts is None else np.asarray(ts)
         tm_s, lag_s = taumax, lag
